@@ -34,6 +34,16 @@ class LMap:
     def __len__(self):
         return len(self.p)
 
+    # error messages format the metadata object: keep CrossHair from realising the (symbolic) keys for that
+    def __deepcopy__(self, memo):
+        return self
+
+    def __reduce_ex__(self, protocol):
+        return (LMap, ([],))
+
+    def __repr__(self):
+        return "<metadata>"
+
 
 DOCUMENTED = {
     "add_atlas_event_collection_info": ["metadata_type", "name", "include_files", "container_type", "element_type", "contains_collection", "link_libraries"],
